@@ -505,6 +505,12 @@ def detect_and_return_klass(python_file, baseclass):
     classes = [m[1] for m in inspect.getmembers(foo, inspect.isclass) if m[1]
                is not baseclass and issubclass(m[1], baseclass)]
 
+    # A class the file merely imports (e.g. to derive from it) is not the
+    # custom class: prefer the classes defined in the file itself
+    defined = [c for c in classes if c.__module__ == foo.__name__]
+    if defined:
+        classes = defined
+
     if len(classes) == 0:
         log.error('Could not find class of type %s in file %s',
                   baseclass, python_file)
